@@ -8,7 +8,7 @@ package cx
 //
 //	kind        what it is                                              is a core.ZodSchema?   has Parse?
 //	transform   X.Transform(fn)         *core.ZodTransform              yes                    yes
-//	pipe        X.Pipe(Y)               *core.ZodPipe                   NO (no ParseAny)       yes
+//	pipe        X.Pipe(Y)               *core.ZodPipe                   yes since ff6dceb      yes   (before: no ParseAny)
 //	refine      X.Refine(fn)            built-in type, custom check     yes                    yes
 //	overwrite   X.Trim()/ToLowerCase()  built-in type, value rewritten  yes                    yes
 //	coerce      CoercedString()/Int()   built-in type, input converted  yes                    yes
@@ -81,6 +81,19 @@ func (s *Sch) Own(x any) (any, error) {
 		return s.Z.ParseAny(x)
 	}
 	return s.RawParse(x)
+}
+
+// MemberKind names the kind of member schema (histogram key).
+func (s *Sch) MemberKind() string {
+	switch {
+	case s.Exotic != "" && s.Kind == "wrap":
+		return s.Exotic + "-around-composite"
+	case s.Exotic != "":
+		return s.Exotic
+	case s.Kind == "leaf":
+		return "builtin-leaf"
+	}
+	return "builtin-composite"
 }
 
 // Intern returns the member's Internals (nil when it exposes none).
